@@ -90,6 +90,17 @@ def run(db, chk, quad: bool = False) -> None:
     _thread_identity(db, chk, new, old)
     _host_thread_recognition(db, chk, new, old)
     _no_default_filter(db, chk, old)
+    # the parents published into a rank's frame come from that rank's stacks: no offset / counter into the list of stacks that is advanced only after its loop
+    n_fun = 0
+    for mn_ in (OLD, NEW, "hta.common.trace_call_graph"):
+        md_ = db.mod(mn_)
+        for q_, f_ in md_.functions.items():
+            n_fun += 1
+            du_ = H.dead_updates_after_loop(f_)
+            if du_:
+                chk.ob("C03.R10-loop-carried-offsets", f"{mn_}:{q_}: the offset into the per-rank / per-thread stacks advances inside its loop", False, md_.loc(f_), found=du_, accepted="update inside the loop",
+                       why="with the update after the loop every rank is given the first rank's stacks: parents and depths of rank 0 are published into the other ranks' frames")
+    chk.ob("C03.R10-loop-carried-offsets", "functions of the call-stack builders scanned for loop-carried values that are advanced after their loop", True if n_fun >= 60 else None, OLD, found=n_fun, accepted=">= 60", nontrivial=False)
     chk.floor("C03.O4-tie-rules", 12)
     chk.floor("C03.O3-strict-weak-order", 2)
     chk.floor("C03.R3-builder", 8)
